@@ -32,7 +32,7 @@ func runAsmHooks(e *emitter, kind int64, c []int64) bool {
 	case 21:
 		var ts []gmars.VerifToken
 		var err error
-		if guard(func() { ts, err = gmars.VerifExpandFor(bytes.NewReader(text)) }) {
+		if guard(func() { ts, err = gmars.VerifExpandFor(bytes.NewReader(text), gmars.ConfigNOP94) }) {
 			e.rec(81, 2)
 			return true
 		}
